@@ -156,6 +156,12 @@ PMR_N = fun("pmr_n", S, I)
 PMR_AT = z3.Function("pmr_at", S, I, ext_sort("EmailAddress"))
 
 
+OLE_STREAM = z3.Function("ole_stream", ext_sort("OleFile"), S, S, ext_sort("OleStream"))
+OLE_DATA = z3.Function("ole_stream_bytes", ext_sort("OleStream"), S)
+DEC_IGN = fun("bytes_decode_ignore", S, S, S)          # the symbol m_decode uses for errors="ignore"
+RSTRIP_CHARS = fun("str_rstrip_chars", S, S, S)        # the symbol str.rstrip(<constant chars>) uses
+
+
 def psr_keep(P, s, k):
     part = RSPL_AT(P, s, k)
     return z3.And(z3.Not(PSR_NONE(part)), z3.Or(z3.Length(PSR_NAME(part)) > 0, z3.Length(PSR_ADDR(part)) > 0))
@@ -1823,6 +1829,25 @@ def install(reg):
         if z3.is_int_value(p0) and p0.as_long() == 0:
             return [(st, VDyn(c, True))]
         return [(st, VDyn(z3.SubString(c, pos, z3.Length(c) - pos), True))]
+
+    # ---- (round 7) olefile: a stream of an open OLE file --------------------------------------
+    # ASSUMED: ole.openstream([storage, name]) may raise anything (missing stream, broken sector chain), else it gives a stream object
+    # that is a function of (file, storage, name); stream.read() may raise, else it gives the stream's bytes (a function of the stream)
+    def m_ole_openstream(ex, st, obj, args, kwargs, node):
+        items = ex.concrete_items(st, args[0]) if len(args) == 1 and not kwargs else None
+        if items is None or len(items) != 2 or not all(isinstance(x, VStr) for x in items):
+            raise Unsupported(f"{ex.loc(node)} openstream of other than [storage, stream name]")
+        ex.exc_any(st.fork(), f"{ex.loc(node)} olefile openstream")
+        return [(st, VExt("OleStream", OLE_STREAM(obj.t, items[0].t, items[1].t)))]
+
+    def m_olestream_read(ex, st, obj, args, kwargs, node):
+        if args or kwargs:
+            raise Unsupported(f"{ex.loc(node)} OleStream.read(n)")
+        ex.exc_any(st.fork(), f"{ex.loc(node)} olefile stream read")
+        return [(st, VDyn(OLE_DATA(obj.t), True))]
+
+    reg.method_models[("OleFile", "openstream")] = m_ole_openstream
+    reg.method_models[("OleStream", "read")] = m_olestream_read
 
     reg.ext_models["io.BytesIO"] = new_bytesio
     reg.ext_models[("new", "io.BytesIO")] = new_bytesio
